@@ -20,6 +20,7 @@ EXPLANATION = (
     "`not exists or overwrite`; (D5) the split-marker metadata key is the same f-string for writer and readers and equals "
     "the literal read by spikeglx at NP2.4. Interruption at every step and equality of disk states across run histories "
     "are NOT decided (they need execution)."
+    ' (D1/D2 as built) the verification state is whatever instance state the deletion guard reads (a flag, a set of pending shanks, None ...): the guard must evaluate to false for the value init_params assigns, and every write that can make it true sits in check_NP24 after the asserting loop.'
 )
 ASSUMPTIONS = [
     "Reader.compress_file is lossless and atomically published (C02; mtscomp trusted)",
